@@ -30,6 +30,10 @@ fn main() {
         "discovered" => for s in &scen_build::discovered(&arg(&args, "--corpus", "")) { sink.build(s); },
         #[cfg(feature = "svg")]
         "svgdiscovered" => fqv::scen_render::svg_discovered(&mut sink, seed, &arg(&args, "--corpus", "")),
+        #[cfg(feature = "diffsel")]
+        "diffbuild" => fqv::scen_diff::diffbuild(&mut sink, seed, thorough),
+        #[cfg(feature = "diffsel")]
+        "diffrender" => fqv::scen_diff::diffrender(&mut sink, seed, thorough),
         "giant" => scen_build::giant(&mut sink, thorough),
         "corrupt" => for (s, errs) in &scen_build::corrupt_specs(seed, thorough) {
             let o = run_build(s);
